@@ -59,6 +59,10 @@ func c06Scenarios(tier string) []*explore.Scenario {
 	}
 	for _, readerIsServer := range []bool{true, false} {
 		readerIsServer := readerIsServer
+		scs = append(scs, &explore.Scenario{Name: fmt.Sprintf("c06/huge-limits/reader=%s", roleName(readerIsServer)), Bound: 0, Body: func(x *explore.Ctx) { c06Huge(x, readerIsServer) }})
+	}
+	for _, readerIsServer := range []bool{true, false} {
+		readerIsServer := readerIsServer
 		scs = append(scs, &explore.Scenario{Name: fmt.Sprintf("c06/memory/reader=%s", roleName(readerIsServer)), Bound: 0, Body: func(x *explore.Ctx) { c06Memory(x, readerIsServer) }})
 	}
 	return scs
@@ -315,6 +319,75 @@ func c06Body(x *explore.Ctx, L int, readerIsServer, deflate bool, h1, maxFrags i
 	if needClose {
 		x.Check(len(closes) == 1 && len(closes[0].Payload) >= 2 && int(closes[0].Payload[0])<<8|int(closes[0].Payload[1]) == 1009, k("no-1009"), "over-limit message: close frames written %d (payload % x), want one with status 1009", len(closes), firstPayload(closes))
 	}
+}
+
+// c06Huge: limits near the top of the int64 range (the running size of a fragmented message must
+// not wrap around or saturate into "within the limit"): a few real bytes, then a frame whose 64-bit
+// length claim (top bit clear) takes the total over the limit; its payload never arrives.
+func c06Huge(x *explore.Ctx, readerIsServer bool) {
+	masked := readerIsServer
+	mk := maskKeys[3]
+	limits := []uint64{1 << 31, 1 << 62, 1<<63 - 2, 1<<63 - 1}
+	L := limits[x.Pick(len(limits), "limit")]
+	parts := [][]int{{1}, {2}, {125}, {1, 1}, {0, 3}, {}}
+	part := parts[x.Pick(len(parts), "real-fragments")]
+	p := 0
+	for _, n := range part {
+		p += n
+	}
+	// claims that cross the limit together with the p bytes already received
+	var claims []uint64
+	for _, c := range []uint64{L - uint64(p) + 1, L, L + 1, 1<<63 - 1, 1<<63 - 1 - uint64(p), 1 << 62} {
+		if c <= 1<<63-1 && c+uint64(p) > L && c+uint64(p) >= c {
+			claims = append(claims, c)
+		}
+	}
+	if len(claims) == 0 {
+		return
+	}
+	claim := claims[x.Pick(len(claims), "claim")]
+	var frames []wsref.Frame
+	for i, n := range part {
+		op := byte(wsref.OpCont)
+		if i == 0 {
+			op = wsref.OpBinary
+		}
+		frames = append(frames, wsref.Frame{Opcode: op, Masked: masked, Key: mk, Payload: Pattern(4, n)})
+	}
+	last := wsref.Frame{Fin: x.Pick(2, "claim-frame-final") == 0, Opcode: wsref.OpCont, Masked: masked, Key: mk, LenForm: 64, ClaimLen: claim}
+	if len(part) == 0 {
+		last.Opcode = wsref.OpBinary
+	}
+	frames = append(frames, last)
+	nc := netsim.NewConn(wsref.EncodeAll(frames))
+	if ch := chunkChoices[x.Pick(3, "chunking")]; ch > 0 {
+		nc.Chunk = netsim.ChunkFixed(ch)
+	}
+	c := websocket.VerifNewConn(nc, readerIsServer, 0, 0, nil, false)
+	c.SetReadLimit(int64(L))
+	x.NonTrivial()
+	var got []byte
+	var err error
+	if x.Pick(2, "readprog") == 0 {
+		_, got, err = c.ReadMessage()
+	} else {
+		var r io.Reader
+		_, r, err = c.NextReader()
+		if err == nil {
+			buf := make([]byte, 7)
+			for err == nil {
+				var n int
+				n, err = r.Read(buf)
+				got = append(got, buf[:n]...)
+			}
+		}
+	}
+	x.Obs("L=%x real=%v claim=%x got=%d err=%v", L, part, claim, len(got), err)
+	k := "C06:huge-limit:"
+	x.Check(err == websocket.ErrReadLimit, k+"over-limit-error", "limit %d, %d bytes received in %d fragments, then a frame claiming %d bytes (total over the limit): the read ended with %v, want ErrReadLimit", L, p, len(part), claim, err)
+	x.Check(len(got) <= p, k+"over-limit-delivered", "%d bytes delivered, only %d precede the frame that crosses the limit", len(got), p)
+	_, _, err2 := c.NextReader()
+	x.Check(err2 != nil, k+"not-sticky", "NextReader after ErrReadLimit returned nil")
 }
 
 func firstPayload(m []wsref.Message) []byte {
